@@ -44,9 +44,19 @@ for e in sorted(glob.glob(os.path.join(ROOT, "evidence", "C*.json"))):
         c.get("discharged"), c.get("obligations"), c.get("evaluations", ""), c.get("traces_validated_against_impl", "")))
 t11 = ("| property | level | property theorems in Props.v | axioms (union of `Print Assumptions` over them) | obligations discharged | evaluations | cases compared with the implementation |\n|---|---|---|---|---|---|---|\n"
        + "\n".join(trows) + "\n\nAll axioms seen: " + ", ".join("`%s`" % a for a in sorted(allax)) + ".")
+# section 13: the property theorems as they stand in coq/Cxx/Props.v
+prow = []
+for d in sorted(glob.glob(os.path.join(ROOT, "coq", "C[0-9][0-9]"))):
+    pf = os.path.join(d, "Props.v")
+    if not os.path.exists(pf): continue
+    names = re.findall(r"^(?:Theorem|Lemma|Corollary)\s+(\w+)", open(pf).read(), re.M)
+    nfiles = len([f for f in os.listdir(d) if f.endswith(".v")])
+    nlines = sum(len(open(os.path.join(d, f)).read().splitlines()) for f in os.listdir(d) if f.endswith(".v"))
+    prow.append("| %s | %d | %d / %d | %s |" % (os.path.basename(d), len(names), nfiles, nlines, ", ".join("`%s`" % n for n in names)))
+t13 = "| property | theorems in Props.v | .v files / lines in coq/Cxx | names |\n|---|---|---|---|\n" + "\n".join(prow)
 p = os.path.join(ROOT, "DESIGN.md")
 s = open(p).read()
-for tag, t in (("FINDINGS", t9), ("SEEDS", t10), ("TRUSTED", t11)):
+for tag, t in (("FINDINGS", t9), ("SEEDS", t10), ("TRUSTED", t11), ("THEOREMS", t13)):
     a, b = "<!-- AUTOGEN:%s:BEGIN -->" % tag, "<!-- AUTOGEN:%s:END -->" % tag
     if a in s:
         s = s[:s.index(a) + len(a)] + "\n" + t + "\n" + s[s.index(b):]
